@@ -7,14 +7,21 @@
 (*   Impl = "asis":  compute and store of updateConnectionState are separate    *)
 (*                   steps of every caller                                      *)
 (*   Impl = "fixed": updateConnectionState runs under a mutex                   *)
+(*   Impl = "early": as "fixed", but a GracefulClose that finds another one in   *)
+(*                   progress waits for the normal closure only (a wrong         *)
+(*                   alternative: TLC shows it returns while work is going on)   *)
 EXTENDS Naturals, Sequences, FiniteSets, TLC, Json
 
-CONSTANTS Impl, Closers, Graceful     \* Graceful \subseteq Closers call GracefulClose
+CONSTANTS Impl, Closers, Graceful,    \* Graceful \subseteq Closers call GracefulClose
+          Workers                      \* 0 or 1: a goroutine of the connection is kept busy by the application
 
 (* --algorithm PcClose {
 variables isClosed = FALSE, gracefulFlag = FALSE, closeDone = FALSE, gracefulDone = FALSE,
           sigState = "stable", conn = "connected", events = <<>>, ucsMu = "free",
-          returned = {};
+          returned = {},
+          busy = Workers,      \* goroutines of the connection that are in the middle of something
+                               \* (an operation of the queue, a data-channel read loop in a handler)
+          retBusy = [k \in Closers |-> 0];   \* how many of them were still busy when k returned
 
 macro StoreConn(c) { if (conn # c) { conn := c; events := Append(events, c) } }
 
@@ -27,32 +34,42 @@ fair process (K \in Closers) variables already = FALSE, alreadyG = FALSE, c = "x
             else if (alreadyG) { goto kWaitG } else { goto kWaitC }
           };
   kTear:  sigState := "closed";                                     \* steps 3..10 -> gate pc.close.step11
-  kUcs1:  if (Impl = "fixed") { await ucsMu = "free"; ucsMu := self };
+  kUcs1:  if (Impl \in {"fixed", "early"}) { await ucsMu = "free"; ucsMu := self };
           c := IF isClosed THEN "closed" ELSE "other";              \* -> gate pc.ucs.computed
-  kUcs2:  StoreConn(c); if (Impl = "fixed") { ucsMu := "free" };
-          closeDone := TRUE;                                        \* (defer) normal closure finished
-          if (self \in Graceful) { gracefulDone := TRUE };
+  kUcs2:  StoreConn(c); if (Impl \in {"fixed", "early"}) { ucsMu := "free" };
+          if (self \notin Graceful) { closeDone := TRUE; goto kRet };  \* (defer) normal closure finished
+  kGrace1: await busy = 0;                                          \* graceful steps: queue drained, read loops ended
+          closeDone := TRUE; gracefulDone := TRUE;                  \* (both defers, at return)
           goto kRet;
-  kWaitG: await gracefulDone; goto kRet;
-  kWaitC: await closeDone; gracefulDone := TRUE;                    \* graceful steps after somebody else's close
-  kRet:   returned := returned \cup {self};
+  kWaitG: if (Impl = "early") { await closeDone } else { await gracefulDone };
+          goto kRet;
+  kWaitC: await closeDone;                                          \* graceful steps after somebody else's close
+  kGrace2: await busy = 0;
+          gracefulDone := TRUE;
+  kRet:   returned := returned \cup {self}; retBusy[self] := busy;
 }
 
 \* a transport state callback that started before (or while) the connection was being closed
 fair process (U = "U") variable cu = "x"; {
-  uCall:  if (Impl = "fixed") { await ucsMu = "free"; ucsMu := "U" };
+  uCall:  if (Impl \in {"fixed", "early"}) { await ucsMu = "free"; ucsMu := "U" };
           cu := IF isClosed THEN "closed" ELSE "disconnected";      \* -> gate pc.ucs.computed
-  uStore: StoreConn(cu); if (Impl = "fixed") { ucsMu := "free" };
+  uStore: StoreConn(cu); if (Impl \in {"fixed", "early"}) { ucsMu := "free" };
+}
+
+\* the environment: lets the handler the busy goroutine is in return (any time)
+fair process (W = "W") {
+  wRelease: busy := 0;
 }
 } *)
 \* BEGIN TRANSLATION
 VARIABLES pc, isClosed, gracefulFlag, closeDone, gracefulDone, sigState, conn, 
-          events, ucsMu, returned, already, alreadyG, c, cu
+          events, ucsMu, returned, busy, retBusy, already, alreadyG, c, cu
 
 vars == << pc, isClosed, gracefulFlag, closeDone, gracefulDone, sigState, 
-           conn, events, ucsMu, returned, already, alreadyG, c, cu >>
+           conn, events, ucsMu, returned, busy, retBusy, already, alreadyG, c, 
+           cu >>
 
-ProcSet == (Closers) \cup {"U"}
+ProcSet == (Closers) \cup {"U"} \cup {"W"}
 
 Init == (* Global variables *)
         /\ isClosed = FALSE
@@ -64,6 +81,8 @@ Init == (* Global variables *)
         /\ events = <<>>
         /\ ucsMu = "free"
         /\ returned = {}
+        /\ busy = Workers
+        /\ retBusy = [k \in Closers |-> 0]
         (* Process K *)
         /\ already = [self \in Closers |-> FALSE]
         /\ alreadyG = [self \in Closers |-> FALSE]
@@ -71,14 +90,16 @@ Init == (* Global variables *)
         (* Process U *)
         /\ cu = "x"
         /\ pc = [self \in ProcSet |-> CASE self \in Closers -> "kEnter"
-                                        [] self = "U" -> "uCall"]
+                                        [] self = "U" -> "uCall"
+                                        [] self = "W" -> "wRelease"]
 
 kEnter(self) == /\ pc[self] = "kEnter"
                 /\ TRUE
                 /\ pc' = [pc EXCEPT ![self] = "kFlag"]
                 /\ UNCHANGED << isClosed, gracefulFlag, closeDone, 
                                 gracefulDone, sigState, conn, events, ucsMu, 
-                                returned, already, alreadyG, c, cu >>
+                                returned, busy, retBusy, already, alreadyG, c, 
+                                cu >>
 
 kFlag(self) == /\ pc[self] = "kFlag"
                /\ already' = [already EXCEPT ![self] = isClosed]
@@ -96,17 +117,17 @@ kFlag(self) == /\ pc[self] = "kFlag"
                                            ELSE /\ pc' = [pc EXCEPT ![self] = "kWaitC"]
                      ELSE /\ pc' = [pc EXCEPT ![self] = "kTear"]
                /\ UNCHANGED << closeDone, gracefulDone, sigState, conn, events, 
-                               ucsMu, returned, c, cu >>
+                               ucsMu, returned, busy, retBusy, c, cu >>
 
 kTear(self) == /\ pc[self] = "kTear"
                /\ sigState' = "closed"
                /\ pc' = [pc EXCEPT ![self] = "kUcs1"]
                /\ UNCHANGED << isClosed, gracefulFlag, closeDone, gracefulDone, 
-                               conn, events, ucsMu, returned, already, 
-                               alreadyG, c, cu >>
+                               conn, events, ucsMu, returned, busy, retBusy, 
+                               already, alreadyG, c, cu >>
 
 kUcs1(self) == /\ pc[self] = "kUcs1"
-               /\ IF Impl = "fixed"
+               /\ IF Impl \in {"fixed", "early"}
                      THEN /\ ucsMu = "free"
                           /\ ucsMu' = self
                      ELSE /\ TRUE
@@ -114,8 +135,8 @@ kUcs1(self) == /\ pc[self] = "kUcs1"
                /\ c' = [c EXCEPT ![self] = IF isClosed THEN "closed" ELSE "other"]
                /\ pc' = [pc EXCEPT ![self] = "kUcs2"]
                /\ UNCHANGED << isClosed, gracefulFlag, closeDone, gracefulDone, 
-                               sigState, conn, events, returned, already, 
-                               alreadyG, cu >>
+                               sigState, conn, events, returned, busy, retBusy, 
+                               already, alreadyG, cu >>
 
 kUcs2(self) == /\ pc[self] = "kUcs2"
                /\ IF conn # c[self]
@@ -123,46 +144,68 @@ kUcs2(self) == /\ pc[self] = "kUcs2"
                           /\ events' = Append(events, c[self])
                      ELSE /\ TRUE
                           /\ UNCHANGED << conn, events >>
-               /\ IF Impl = "fixed"
+               /\ IF Impl \in {"fixed", "early"}
                      THEN /\ ucsMu' = "free"
                      ELSE /\ TRUE
                           /\ ucsMu' = ucsMu
-               /\ closeDone' = TRUE
-               /\ IF self \in Graceful
-                     THEN /\ gracefulDone' = TRUE
-                     ELSE /\ TRUE
-                          /\ UNCHANGED gracefulDone
-               /\ pc' = [pc EXCEPT ![self] = "kRet"]
-               /\ UNCHANGED << isClosed, gracefulFlag, sigState, returned, 
-                               already, alreadyG, c, cu >>
+               /\ IF self \notin Graceful
+                     THEN /\ closeDone' = TRUE
+                          /\ pc' = [pc EXCEPT ![self] = "kRet"]
+                     ELSE /\ pc' = [pc EXCEPT ![self] = "kGrace1"]
+                          /\ UNCHANGED closeDone
+               /\ UNCHANGED << isClosed, gracefulFlag, gracefulDone, sigState, 
+                               returned, busy, retBusy, already, alreadyG, c, 
+                               cu >>
+
+kGrace1(self) == /\ pc[self] = "kGrace1"
+                 /\ busy = 0
+                 /\ closeDone' = TRUE
+                 /\ gracefulDone' = TRUE
+                 /\ pc' = [pc EXCEPT ![self] = "kRet"]
+                 /\ UNCHANGED << isClosed, gracefulFlag, sigState, conn, 
+                                 events, ucsMu, returned, busy, retBusy, 
+                                 already, alreadyG, c, cu >>
 
 kWaitG(self) == /\ pc[self] = "kWaitG"
-                /\ gracefulDone
+                /\ IF Impl = "early"
+                      THEN /\ closeDone
+                      ELSE /\ gracefulDone
                 /\ pc' = [pc EXCEPT ![self] = "kRet"]
                 /\ UNCHANGED << isClosed, gracefulFlag, closeDone, 
                                 gracefulDone, sigState, conn, events, ucsMu, 
-                                returned, already, alreadyG, c, cu >>
+                                returned, busy, retBusy, already, alreadyG, c, 
+                                cu >>
 
 kWaitC(self) == /\ pc[self] = "kWaitC"
                 /\ closeDone
-                /\ gracefulDone' = TRUE
-                /\ pc' = [pc EXCEPT ![self] = "kRet"]
-                /\ UNCHANGED << isClosed, gracefulFlag, closeDone, sigState, 
-                                conn, events, ucsMu, returned, already, 
-                                alreadyG, c, cu >>
+                /\ pc' = [pc EXCEPT ![self] = "kGrace2"]
+                /\ UNCHANGED << isClosed, gracefulFlag, closeDone, 
+                                gracefulDone, sigState, conn, events, ucsMu, 
+                                returned, busy, retBusy, already, alreadyG, c, 
+                                cu >>
+
+kGrace2(self) == /\ pc[self] = "kGrace2"
+                 /\ busy = 0
+                 /\ gracefulDone' = TRUE
+                 /\ pc' = [pc EXCEPT ![self] = "kRet"]
+                 /\ UNCHANGED << isClosed, gracefulFlag, closeDone, sigState, 
+                                 conn, events, ucsMu, returned, busy, retBusy, 
+                                 already, alreadyG, c, cu >>
 
 kRet(self) == /\ pc[self] = "kRet"
               /\ returned' = (returned \cup {self})
+              /\ retBusy' = [retBusy EXCEPT ![self] = busy]
               /\ pc' = [pc EXCEPT ![self] = "Done"]
               /\ UNCHANGED << isClosed, gracefulFlag, closeDone, gracefulDone, 
-                              sigState, conn, events, ucsMu, already, alreadyG, 
-                              c, cu >>
+                              sigState, conn, events, ucsMu, busy, already, 
+                              alreadyG, c, cu >>
 
 K(self) == kEnter(self) \/ kFlag(self) \/ kTear(self) \/ kUcs1(self)
-              \/ kUcs2(self) \/ kWaitG(self) \/ kWaitC(self) \/ kRet(self)
+              \/ kUcs2(self) \/ kGrace1(self) \/ kWaitG(self)
+              \/ kWaitC(self) \/ kGrace2(self) \/ kRet(self)
 
 uCall == /\ pc["U"] = "uCall"
-         /\ IF Impl = "fixed"
+         /\ IF Impl \in {"fixed", "early"}
                THEN /\ ucsMu = "free"
                     /\ ucsMu' = "U"
                ELSE /\ TRUE
@@ -170,8 +213,8 @@ uCall == /\ pc["U"] = "uCall"
          /\ cu' = IF isClosed THEN "closed" ELSE "disconnected"
          /\ pc' = [pc EXCEPT !["U"] = "uStore"]
          /\ UNCHANGED << isClosed, gracefulFlag, closeDone, gracefulDone, 
-                         sigState, conn, events, returned, already, alreadyG, 
-                         c >>
+                         sigState, conn, events, returned, busy, retBusy, 
+                         already, alreadyG, c >>
 
 uStore == /\ pc["U"] = "uStore"
           /\ IF conn # cu
@@ -179,27 +222,38 @@ uStore == /\ pc["U"] = "uStore"
                      /\ events' = Append(events, cu)
                 ELSE /\ TRUE
                      /\ UNCHANGED << conn, events >>
-          /\ IF Impl = "fixed"
+          /\ IF Impl \in {"fixed", "early"}
                 THEN /\ ucsMu' = "free"
                 ELSE /\ TRUE
                      /\ ucsMu' = ucsMu
           /\ pc' = [pc EXCEPT !["U"] = "Done"]
           /\ UNCHANGED << isClosed, gracefulFlag, closeDone, gracefulDone, 
-                          sigState, returned, already, alreadyG, c, cu >>
+                          sigState, returned, busy, retBusy, already, alreadyG, 
+                          c, cu >>
 
 U == uCall \/ uStore
+
+wRelease == /\ pc["W"] = "wRelease"
+            /\ busy' = 0
+            /\ pc' = [pc EXCEPT !["W"] = "Done"]
+            /\ UNCHANGED << isClosed, gracefulFlag, closeDone, gracefulDone, 
+                            sigState, conn, events, ucsMu, returned, retBusy, 
+                            already, alreadyG, c, cu >>
+
+W == wRelease
 
 (* Allow infinite stuttering to prevent deadlock on termination. *)
 Terminating == /\ \A self \in ProcSet: pc[self] = "Done"
                /\ UNCHANGED vars
 
-Next == U
+Next == U \/ W
            \/ (\E self \in Closers: K(self))
            \/ Terminating
 
 Spec == /\ Init /\ [][Next]_vars
         /\ \A self \in Closers : WF_vars(K(self))
         /\ WF_vars(U)
+        /\ WF_vars(W)
 
 Termination == <>(\A self \in ProcSet: pc[self] = "Done")
 
@@ -210,9 +264,11 @@ FinalSignalingClosed  == AllDone => sigState = "closed"
 FinalConnectionClosed == AllDone => conn = "closed"
 NoStateAfterClosed == \A i, j \in 1..Len(events) : (i < j /\ events[i] = "closed") => events[j] = "closed"
 AllReturn == <>(returned = Closers)
+\* once GracefulClose returned, no goroutine of the connection is still at work
+GracefulWaits == \A k \in Graceful : k \in returned => retBusy[k] = 0
 
-Actor == IF \E k \in Closers : K(k) THEN CHOOSE k \in Closers : K(k) ELSE IF U THEN "U" ELSE "none"
-St == [pc |-> pc, isClosed |-> isClosed, conn |-> conn, events |-> events, cd |-> closeDone, gd |-> gracefulDone, mu |-> ucsMu]
+Actor == IF \E k \in Closers : K(k) THEN CHOOSE k \in Closers : K(k) ELSE IF U THEN "U" ELSE IF W THEN "W" ELSE "none"
+St == [pc |-> pc, isClosed |-> isClosed, conn |-> conn, events |-> events, cd |-> closeDone, gd |-> gracefulDone, mu |-> ucsMu, busy |-> busy]
 EmitInitInv == (~isClosed /\ events = <<>> /\ \A k \in Closers : pc[k] = "kEnter") => PrintT(<<"VERIF_INIT", ToJson(St)>>)
 EmitEdge == Actor = "none" \/ PrintT(<<"VERIF_EDGE", ToJson([f |-> St, a |-> [proc |-> Actor, label |-> pc[Actor]], t |-> St'])>>)
 =============================================================================
